@@ -37,6 +37,7 @@ extern "C" {
     fn waitpid(pid: i32, status: *mut i32, options: i32) -> i32;
     fn _exit(code: i32) -> !;
     fn clock_gettime(clk: i32, ts: *mut Timespec) -> i32;
+    fn mallopt(param: i32, value: i32) -> i32;
 }
 #[repr(C)]
 struct Timespec {
@@ -372,6 +373,12 @@ fn main() {
     unsafe {
         let r = Rlimit { cur: lim << 20, max: lim << 20 };
         setrlimit(RLIMIT_AS, &r);
+    }
+    // keep freed memory in the process (glibc): most of the sweep's system time was page faults of
+    // blocks that malloc had given back to the kernel after every call
+    unsafe {
+        mallopt(-1, 1 << 30); // M_TRIM_THRESHOLD
+        mallopt(-3, 32 << 20); // M_MMAP_THRESHOLD (its maximum)
     }
     let cap_mb = std::env::var("C14_ALLOC_CAP_MB").ok().and_then(|s| s.parse::<usize>().ok()).unwrap_or(1024);
     let _ = std::fs::create_dir_all("/tmp/nv-c14-sandbox");
